@@ -39,8 +39,9 @@ End == ~done /\ hist # <<>> /\ done' = TRUE /\ UNCHANGED <<doc, hdr, tablesLoade
 
 Next == \/ \E h \in HSet : SetHeader(h)
         \/ \E s \in SheetArgs : Simple("range", s) \/ Simple("range_ref", s) \/ Simple("formula", s) \/ Simple("merge_cells", s)
-        \/ Simple("range", "nope") \/ Simple("formula", "nope")
-        \/ \E n \in {"0", "1", "7"} : Simple("range_at", n)
+        \* unknown names: one unrelated, one that differs from an existing sheet ("S2") only by case
+        \/ \E u \in UnknownSheets : Simple("range", u) \/ Simple("formula", u)
+        \/ \E n \in {"0", "1", "2", "7"} : Simple("range_at", n)
         \/ Simple("worksheets", "") \/ Simple("sheet_names", "") \/ Simple("defined_names", "") \/ Simple("vba", "")
         \/ LoadTables \/ TableCalls("table_by_name") \/ TableCalls("table_names") \/ LoadMerged \/ MergedCalls
         \/ End
